@@ -84,7 +84,12 @@ def run_once(kind, tname, st, seed, backend="stab", checks=None):
         best.append(float(s.hof[0][0]))
     s.update_hof = spy
     s.seed(seed)
-    s.solve()
+    try:
+        s.solve()
+    except Exception as e:
+        if checks is not None:
+            checks.append(("run", "solve-raises-" + type(e).__name__, repr(e)[:200]))
+        return {"hof": [], "result": None, "logs": None, "raised": type(e).__name__}, s
     sig = signature(s)
     if checks is not None:
         scores = [float(x[0]) for x in s.hof]
@@ -98,7 +103,14 @@ def run_once(kind, tname, st, seed, backend="stab", checks=None):
             problems.append(("logs", "logged-best-differs-from-hall-of-fame", {"seen": best, "logged": sig["logs"]}))
         if abs(float(s.result[0]) - float(s.hof[0][0])) > 1e-12 or s.result[1] is not s.hof[0][1]:
             problems.append(("result", "result-is-not-the-best-entry", [float(s.result[0]), float(s.hof[0][0])]))
-        pop_ids = set()
+        # every stored circuit is still a well-formed emission circuit (selection / copying must not corrupt it)
+        from . import c04
+        for k, (sc, circ) in enumerate(s.hof):
+            if circ is not None:
+                bad = c04.invariant(circ, {})
+                if bad is not None:
+                    problems.append(("structure", "hall-of-fame-circuit-malformed: " + bad[0], {"entry": k, "detail": bad[1]}))
+                    break
         # stored scores are honest
         n, edges = TARGETS[tname]
         for k, (sc, circ) in enumerate(s.hof):
@@ -143,7 +155,7 @@ def batch(arg):
         sig3, _ = run_once(kind, tname, st, seed)
         out.append({"case": case, "sig": sig1, "same_process_repeat": sig2 == sig1, "after_other_run": sig3 == sig1,
                     "problems": [[a, b, json.loads(core.jdump(c))] for a, b, c in (checks or [])],
-                    "nontrivial": len({h[1] for h in sig1["hof"] if h[1]}) >= 2})
+                    "nontrivial": len({h[1] for h in sig1["hof"] if h and h[1]}) >= 2})
     return out
 
 
